@@ -88,6 +88,11 @@ def magic_table(ctx, chain):
 
 def run(ctx):
     core = ctx.core("on")
+    # "all such failures are reported, named fields located by their name": in the body conversion no
+    # error value is dropped, discarded or split from what was attached to it
+    from vlib import scan as _scan
+    body_conv = [b for b in ctx.all_bodies(core) if b.file.endswith("/ast/data.rs") and not _scan.is_test_body(b) and not b.derived]
+    common.error_discipline(ctx, "C16.D", body_conv)
     # ---------------------------------------------------------------- magic-name tables
     for chain, want in MAGIC.items():
         tab, f = magic_table(ctx, chain)
